@@ -526,3 +526,50 @@ func (h *Handle) Open(id string) (*raft.SnapshotMeta, io.ReadCloser, error) {
 	}
 	return nil, nil, fmt.Errorf("no snapshot %s", id)
 }
+
+// ---- inspection helpers (HANDLER engine, tests) ----
+
+// DumpLog returns the current durable log as entry summaries ordered by index.
+func (d *Disk) DumpLog() []Ent {
+	d.mu.Lock()
+	defer d.mu.Unlock()
+	var out []Ent
+	for _, l := range d.im.logs {
+		out = append(out, EntOf(l))
+	}
+	sort.Slice(out, func(i, j int) bool { return out[i].I < out[j].I })
+	return out
+}
+
+// Stable returns the durable term / vote record.
+func (d *Disk) Stable() (term, voteTerm uint64, voteCand string, hasCand bool) {
+	d.mu.Lock()
+	defer d.mu.Unlock()
+	c, ok := d.im.kv["LastVoteCand"]
+	return d.im.kvi["CurrentTerm"], d.im.kvi["LastVoteTerm"], string(c), ok && c != nil
+}
+
+// NewestSnapshot returns (index, term) of the newest complete snapshot.
+func (d *Disk) NewestSnapshot() (uint64, uint64) {
+	d.mu.Lock()
+	defer d.mu.Unlock()
+	var best *snap
+	for _, s := range d.im.snaps {
+		if s.done && (best == nil || snapLess(best, s)) {
+			best = s
+		}
+	}
+	if best == nil {
+		return 0, 0
+	}
+	return best.meta.Index, best.meta.Term
+}
+
+// Ops returns the number of mutating operations performed so far.
+func (d *Disk) Ops() uint64 { d.mu.Lock(); defer d.mu.Unlock(); return d.ops }
+
+// OnCrash sets the callback invoked after a fault-triggered crash.
+func (d *Disk) OnCrash(f func(reason string)) { d.mu.Lock(); d.onCrash = f; d.mu.Unlock() }
+
+// Name returns the server name.
+func (d *Disk) Name() string { return d.name }
